@@ -94,7 +94,8 @@ def gen_cases(rng, tier):
         inel = [c for c in range(max(ncpu, max(elig) + 1) + 1) if c not in elig]
         lists = [[elig[0], elig[0]], elig + elig[::-1], [elig[-1]], list(elig)]
         lists += [[c] for c in inel[:4]] + [inel[:3], [99], [-1], [-5], [1024], [1023], [2 ** 63 - 1], [-2 ** 63], [2 ** 70], [-1, 99],
-                                            [99, 99], [ncpu], [ncpu - 1], [elig[0], 99], [elig[0], -1], [elig[0], inel[0]], [2 ** 70, elig[0]]]
+                                            [99, 99], [ncpu], [ncpu - 1], [elig[0], 99], [elig[0], -1], [elig[0], inel[0]], [2 ** 70, elig[0]],
+                                            [2 ** 31], [2 ** 32], [2 ** 32 + 1], [2 ** 62], [2 ** 32 + elig[0]], [2 ** 32, elig[0]]]
         for l in lists:
             if not l:
                 continue
@@ -219,8 +220,10 @@ def _live_cases(rng, tier):
     for name, mask in states:
         out.append(_live("live-aff-empty-" + name, elig, ncpu, ["aff", []], mask=mask))
         out.append(_live("live-aff-get-" + name, elig, ncpu, ["aff", None], mask=mask))
+        # incl. numbers that fit a C long but not an int: a C layer narrowing them would turn 2^32+k into CPU k
         for l in [[elig[0], elig[0]], list(elig) + [elig[0]], [1023], [-1], [-5], [1024], [2 ** 63 - 1], [2 ** 70], inel[:1], inel[:2],
-                  [elig[0], 1024], [1024, -1]]:
+                  [elig[0], 1024], [1024, -1], [2 ** 31], [2 ** 32], [2 ** 32 + 1], [2 ** 62], [2 ** 32 + elig[0]], [2 ** 32 + elig[-1]],
+                  [-2 ** 32], [2 ** 31 + elig[0]], [2 ** 32, elig[0]], [2 ** 32 + elig[-1], elig[0]]]:
             if not l:
                 continue
             k = "live-aff-valid-" if all(c in elig for c in l) else "live-aff-invalid-" if not any(c in elig for c in l) else "live-aff-mixed-"
@@ -274,7 +277,25 @@ def _proc_term(p):
     return "(%s, Build_proc %s %s %s %s %s)" % (G.z(p["pid"]), G.z(p["nice"]), G.z(p["ioprio"]), _zl(p["mask"]), _zl(p["elig"]), rl)
 
 
+_machine_cache = {}
+
+
+def _fill_auto(case):
+    """A live corpus case carries only the request; the machine-dependent start state is filled in here."""
+    if not _machine_cache:
+        import resource
+        elig, ncpu = _machine()
+        _machine_cache.update(elig=elig, ncpu=ncpu, base=[list(resource.getrlimit(r)) for r in range(16)])
+    m = _machine_cache
+    mask = {"fresh": None, "last": m["elig"][-1:], "two": m["elig"][:2]}[case.get("state", "fresh")]
+    full = _live(case.get("cls", "live-corpus"), m["elig"], m["ncpu"], case["req"], mask=mask, rlim=m["base"])
+    for k, v in full.items():
+        case.setdefault(k, v)
+
+
 def coq_term(case):
+    if case.get("auto") and "procs" not in case:
+        _fill_auto(case)
     k = "(Build_kernel %s %s %s)" % (G.lst([_proc_term(p) for p in case["procs"]]), G.z(case["ncpu"]), G.z(case["nr"]))
     return "run_case %s %s %s" % (k, G.z(case["pid"]), _req_term(case["req"]))
 
@@ -338,6 +359,9 @@ def _get_call(p, req):
 def impl_run(case, coq, env):
     if case["kind"] == "sim":
         return _run_sim(case, coq, env)
+    import platform
+    if platform.machine() != "x86_64" or os.geteuid() != 0:
+        return T("Skip", "live cases need root on x86_64")
     return _run_live(case, coq, env)
 
 
